@@ -7,6 +7,7 @@ import (
 	"google.golang.org/grpc/connectivity"
 	"google.golang.org/grpc/resolver"
 
+	pb "github.com/GoogleCloudPlatform/grpc-gcp-go/grpcgcp/grpc_gcp"
 	"github.com/GoogleCloudPlatform/grpc-gcp-go/grpcgcp/multiendpoint"
 )
 
@@ -66,17 +67,23 @@ func VerifH_race() {
 		verifAssume(verifFlag("rr"))
 		n := len(w.gb.scRefList)
 		verifAssume(n >= 1)
-		verifAssume(w.ready(w.gb.scRefList[(w.gb.rrRefId+1)%uint32(n)])) // no waiting
+		verifAssume(w.ready(w.gb.scRefList[uint32(w.gb.rrRefId+1)%uint32(n)])) // no waiting
 		ctx := &verifCtx{hasGcp: true, gcp: &gcpContext{}, done: make(chan struct{})}
 		a = func() { w.pk.Pick(balancer.PickInfo{FullMethodName: "/bind", Ctx: ctx}) }
 		ctx2 := &verifCtx{done: make(chan struct{})}
 		b = func() { w.other.Pick(balancer.PickInfo{FullMethodName: "/plain", Ctx: ctx2}) }
 		verifAssume(len(w.other.scRefs) > 0)
-	case 5: // a pick and a resolver update
-		a = w.pickOp("p1")
-		b = func() {
-			w.gb.UpdateClientConnState(balancer.ClientConnState{ResolverState: resolver.State{Addresses: []resolver.Address{{Addr: "x"}}}})
+	case 5, 8: // a pick (5) / a completion (8) and a later resolver update, which may carry a configuration again
+		if verifCase("pair") == 5 {
+			a = w.pickOp("p1")
+		} else {
+			a = w.doneOp("d1")
 		}
+		ccs := balancer.ClientConnState{ResolverState: resolver.State{Addresses: []resolver.Address{{Addr: "x"}}}}
+		if verifBool("carriesConfig") {
+			ccs.BalancerConfig = &GCPBalancerConfig{ApiConfig: &pb.ApiConfig{ChannelPool: &pb.ChannelPoolConfig{MaxSize: 3}, Method: []*pb.MethodConfig{{Name: []string{"/bind"}, Affinity: &pb.AffinityConfig{Command: pb.AffinityConfig_BIND, AffinityKey: "keys"}}}}}
+		}
+		b = func() { w.gb.UpdateClientConnState(ccs) }
 	}
 	verifReach("before")
 	verifPar(a, b)
